@@ -2,8 +2,8 @@
 import io
 from vfam import *  # noqa
 
-THEOREMS = ["C02_sequence_offsets", "C02_sequence_fixed", "C02_container_offsets", "C02_uint", "C02_bool", "C02_length_within_bounds"]
-PARTIAL = ["C02_serialize for composite / packed / bitfield / byte-array kinds (the tree-reading part: elements fetched by getter and the stack iterators, chunk slicing, delimiter bit) is not proved as one theorem; the offset and count bookkeeping is proved for arbitrary element encodings, leaf kinds are proved, everything else is tied by the correspondence (encode_bytes, serialize(stream) bytes+count, bytes()) on random / boundary / full values"]
+THEOREMS = ["C02_sequence_offsets", "C02_sequence_fixed", "C02_container_offsets", "C02_uint", "C02_bool", "C02_length_within_bounds", "C02_constructed"]
+PARTIAL = ["C02_constructed covers every type built from uintN, boolean, Container, Union and Vector/List of non-basic elements at any nesting depth (element reads through getter-by-gindex, length/selector mix-in, offsets); packed basic vectors/lists, bit arrays and byte arrays (chunk slicing, delimiter bit) and trees reached by mutation rather than construction are not covered by that theorem and are tied by the correspondence (encode_bytes, serialize(stream) bytes+count, bytes()) on random / boundary / full values"]
 COQ_IMPORTS = ["RM.Types", "RMR.RunV"]
 COQ_FN = "RunV.run_c02"
 COQ_CASE_TY = "(ty * val)"
